@@ -169,7 +169,7 @@ def gen_rule(rng, idx: int, with_funcs: bool, allow_clash: bool, host=None) -> d
         tn = [("Mul", "", None, [("v", 0), ("i", 0)], 1, [])] + [(op, dom, ver, [sh(r) for r in ins], nout, attrs) for op, dom, ver, ins, nout, attrs in tn]
         touts = [sh(r) for r in touts]
         spec["inits"] = [("one", L.init_tok_for("one"))]
-        spec["unique"] = True if not allow_clash else rng.random() < 0.7
+        spec["unique"] = rng.random() < 0.5  # fixed names clash on the second firing: renamed `one_k` since 340a24c
     elif fam == "asfn":
         spec["asfn"] = True
         # a second domain sometimes: the main graph must then import it even when the rule fires in a function body
@@ -224,11 +224,9 @@ def pred_asfn_in_body(case) -> bool:
 
 
 PREDICATES = {
-    "C09-N3": lambda c, m: pred_d18(c, m),  # D18 of DESIGN.md; id shared with C09 (same defect through optimize())
     "C07-D2": lambda c, m: pred_selfmatch(c),
     "C07-D3": lambda c, m: pred_multi_output_nodes(c),
     "C07-D4": lambda c, m: pred_passthru(c),
-    "C07-D5": lambda c, m: pred_asfn_in_body(c),
 }
 
 # --------------------------------------------------------------------------- one case
@@ -238,18 +236,9 @@ def make_case(rng, size_hi: int, allow_clash: bool) -> dict:
     with_funcs = rng.random() < 0.45
     with_cond = rng.random() < 0.55
     nrules = rng.choice([1, 1, 2])
-    extra = ["one"] if (allow_clash and rng.random() < 0.15) else []
+    extra = ["one"] if rng.random() < 0.1 else []
     host, hist = L.gen_host(rng, rng.randint(2, size_hi), with_funcs, with_cond, extra)
     rules = [gen_rule(rng, i + 1, with_funcs, allow_clash, host) for i in range(nrules)]
-    if with_cond and any(s["asfn"] for s in rules):  # C07-D5 region is replayed separately
-        for s in rules:
-            if s["asfn"]:
-                s["asfn"] = False
-                s["family"] = "reemit"
-                s["tnodes"] = [(op, dom, None, list(ins), 2 if op == "Two" else nout, list(attrs)) for op, dom, ins, nout, attrs in s["pnodes"]]
-                s["touts"] = list(s["pouts"])
-                if not s["name"]:
-                    s["name"], s["guard"] = "r9", True
     return {"rules": rules, "host": host.SerializeToString().hex(), "with_cond": with_cond, "with_funcs": with_funcs, "hist": hist}
 
 
@@ -325,6 +314,8 @@ def check_case(case, answers: list[str], rng, do_ort: bool, stats: Counter):
             stats["real_err_" + cnt.split(":")[0]] += 1
             if cnt == "fuel":
                 prop.append(f"{mode}: the pass does not terminate (time limit)")
+            if cnt == "nameFixRename":
+                prop.append(f"{mode}: raises ValueError from NameFixPass (Cannot rename initializer: the name already exists) on a valid model")
             if cnt == "unsafeRemove":
                 prop.append(f"{mode}: raises ValueError (a removed value is still used by the replacement) on a valid model")
             if mk != "ERR" or mc.split(":")[0] != cnt.split(":")[0]:
@@ -361,16 +352,16 @@ def corpus() -> list[dict]:
     N = helper.make_node
     base = dict(remove=True, asfn=False, guard=True, inits=[], unique=False)
     out = []
-    # C09-N3 (= D18): two rules registering same-named initializers in one pass
+    # regression for C09-N3 (= D18, fixed 340a24c): two rules registering same-named initializers in one pass
     mul_one = lambda op: [("Mul", "", None, [("v", 0), ("i", 0)], 1, []), (op, "", None, [("n", 0, 0)], 1, [])]  # noqa: E731
-    out.append({"id": "C09-N3", "with_cond": False, "rules": [
+    out.append({"regress": "C09-N3", "with_cond": False, "rules": [
         dict(base, name="r1", family="mulone", pnodes=[("Relu", "", [("v", 0)], 1, [])], root=0, pouts=[("n", 0, 0)],
              inits=[("one", L.init_tok_for("one"))], tnodes=mul_one("Relu"), touts=[("n", 1, 0)]),
         dict(base, name="r2", family="mulone", pnodes=[("Neg", "", [("v", 0)], 1, [])], root=0, pouts=[("n", 0, 0)],
              inits=[("one", L.init_tok_for("one"))], tnodes=mul_one("Neg"), touts=[("n", 1, 0)])],
         "host": host([N("Relu", ["x"], ["a"]), N("Neg", ["a"], ["z"])], ["x"], ["z"])})
     # C09-N3 (= D18): one rule that registers the initializer `one` fires twice
-    out.append({"id": "C09-N3", "with_cond": False, "rules": [dict(base, name="r1", family="mulone", pnodes=[("Relu", "", [("v", 0)], 1, [])], root=0,
+    out.append({"regress": "C09-N3", "with_cond": False, "rules": [dict(base, name="r1", family="mulone", pnodes=[("Relu", "", [("v", 0)], 1, [])], root=0,
                 pouts=[("n", 0, 0)], inits=[("one", L.init_tok_for("one"))],
                 tnodes=[("Mul", "", None, [("v", 0), ("i", 0)], 1, []), ("Relu", "", None, [("n", 0, 0)], 1, [])], touts=[("n", 1, 0)])],
                 "host": host([N("Relu", ["x"], ["a"]), N("Neg", ["a"], ["b"]), N("Relu", ["b"], ["z"])], ["x"], ["z"])})
@@ -419,7 +410,7 @@ def check_multi_output_witness() -> str | None:
 
 
 def check_asfn_body_witness() -> str | None:
-    """C07-D5 candidate: as_function inside an If body (function built from the body's own, empty, opset imports)."""
+    """Regression witness of C07-D5 (fixed 35ad500): as_function inside an If body; the function must import the default domain."""
     from onnxscript import ir
     from onnxscript.rewriter import RewriteRuleSet, pattern
 
@@ -441,6 +432,8 @@ def check_asfn_body_witness() -> str | None:
 def classify(case, host, what: str = "") -> str | None:
     if "a removed value is still used by the replacement" in what:
         return "C07-D6"
+    if "Cannot rename initializer" in what:
+        return "C07-D8"
     if "SSA across scopes" in what or "single static assignment" in what:
         return "C07-D7"
     for fid, pred in PREDICATES.items():
@@ -530,10 +523,8 @@ def main(run: core.Run) -> None:
             prop_failures.append(({"witness": "multi-output-node"}, r))
     r = check_asfn_body_witness()
     if r:
-        if "C07-D5" in findings:
-            run.known("C07-D5", "as_function for a match inside an If body -> " + " ".join(r[:200].split()))
-        else:
-            prop_failures.append(({"witness": "as_function in body"}, r))
+        # C07-D5 was fixed by 35ad500: a failure of the regression witness is a violation
+        prop_failures.append(({"witness": "as_function in body (regression of C07-D5)"}, r))
 
     # 2. generated stream
     batch = 60
